@@ -10,20 +10,39 @@
 //!           | a positional "symargs" (test_app.sym with argument lists) | b --symbols-path symargs + positional symbols
 //!           | U<2|4|g>[c|t] --symbols-url on the harness's loopback server answering 200 / 404 / 200 with garbage,
 //!             with fresh --symbols-cache / --symbols-tmp directories (c: cache path unusable, t: tmp path unusable)
+//!           | M<items> symbol sources in argv order: '.' = the minidump; a letter = a symbol root, lower case = positional,
+//!             upper case = `--symbols-path <root>`; roots: a m z = "alpha" "mid" "zeta" (each holds test_app.sym with the
+//!             function names suffixed _a / _m / _z), o = testdata/symbols, g = "symargs", f = "file.sym" (a .sym FILE, names
+//!             suffixed _f), e = an empty directory, x = a missing directory; a digit = `--symbols-url` on the loopback
+//!             server: 2 ok, 4 not found, 6 garbage, 8 "alt" (serves the symargs tree).  The in-process reference gets the
+//!             roots / URLs in argv order; further renderings are named <R>@flagsfirst (flag values first, then positionals), <R>@<letter>
+//!             (that root alone) so that the answer tells which store the tool used
+//!           | U...d: --symbols-url without --symbols-cache / --symbols-tmp (defaults below $TMPDIR)
 //!   modes   '-' or letters of h(--human) j(--json) c(--cyborg) D(--dump) m(--help-markdown)
 //!   feat    0 stable-basic | 1 stable-all | 2 unstable-all | 9 (no --features argument)
 //!   out/cy/log  '-' absent | g writable file | b path in a missing directory | u /dev/full | d an existing directory
 //!           | r an existing read-only file (the tool then runs as uid 65534 when the harness is root)
 //!           | f<N> (out only) a FIFO whose reader goes away after N >= 1 bytes
+//!           | x<k> the path exists BEFORE the run: xe empty file | xs shorter (23 bytes) | xl longer (300 000 bytes) than any
+//!             report | xq exactly as long as what this very command writes (a previous identical run, every byte then
+//!             replaced by '#') | xk a symlink to a longer file | xK a dangling symlink | xL a symlink loop (open fails)
+//!           | q<letters> the path was written by PREVIOUS RUNS of the tool (same input and symbols), one per letter:
+//!             out: h --human, b --human --brief, j --json, J --json --pretty, D --dump, d --dump --brief;
+//!             cy: c --cyborg F, C --cyborg F --pretty; log: T --verbose=trace --log-file F, E --verbose=error on a missing input
 //!   verbose e (no flag) | off|error|warn|info|debug|trace
 //!   stdout  o pipe | u /dev/full | p pipe whose reader is gone | p<N> pipe whose reader goes away after N bytes
 //!   noflags bit 0 --no-color, bit 1 --no-interactive
 //!   lim     0 | N: RLIMIT_FSIZE = N bytes for the tool (SIGXFSZ ignored): every regular file fails with EFBIG after N bytes
 //!   ldi     1: --use-local-debuginfo
 //! answer:
-//!   lib=<R|P|O|X|?> cpu=<x86|amd64|arm64|other|-> exit=<n|sig:n|timeout> stdout=<sink> out=<sink> cy=<sink> log=<-|len> stderr=<len> exp=<list>
+//!   lib=<R|P|O|X|?> cpu=<x86|amd64|arm64|other|-> exit=<n|sig:n|timeout> stdout=<sink> out=<sink> cy=<sink> log=<-|len> stderr=<len>
+//!   pre=<out>/<cy>/<log> (length of each path's content before the run, '-' absent) kept=<-|sinks whose content is byte for
+//!   byte what it was before the run> logref=<-|same|diff> (the log file equals
+//!   the log of the same command on fresh paths) stale=<-|sinks that still hold pre-state marker bytes> symc=<-|a/b/c/d> (files
+//!   below the tool's cache / tmp directory and the library's after the run) exp=<list>
 //!   sink = '-' (file absent) | n/a | <len>:<hash>:<names of the in-process renderings it equals, '+'-joined | none>
-//!          a name followed by '<' means: a proper non-empty prefix of that rendering
+//!          a name followed by '<' means: a proper non-empty prefix of that rendering; followed by '>': that whole rendering
+//!          and then further bytes; preceded by '>': further bytes and then that whole rendering
 //!   renderings: H0 H1 HB0 HB1 J0 J1 JP0 JP1 (suffix = recover_function_args) D DB
 use minidump::*;
 use minidump_processor::ProcessorOptions;
@@ -531,7 +550,7 @@ fn run_tool(tool: &str, args: &[String], cwd: &Path, sk: &Sinks) -> ToolOut {
 
 // ---------------------------------------------------------------------------------- loopback symbol server
 /// GET /ok/<path> -> testdata/symbols/<path> (404 if absent); /nf/.. -> 404; /gb/.. -> 200 with a body that is no symbol file
-fn start_symbol_server() -> u16 {
+fn start_symbol_server(alt_root: PathBuf) -> u16 {
     let mut tries = 0;
     let listener = loop {
         match std::net::TcpListener::bind("127.0.0.1:0") {
@@ -554,6 +573,7 @@ fn start_symbol_server() -> u16 {
                 Err(_) => continue,
             };
             let root = root.clone();
+            let alt_root = alt_root.clone();
             std::thread::spawn(move || {
                 let _ = conn.set_read_timeout(Some(Duration::from_secs(5)));
                 let mut req = Vec::new();
@@ -566,7 +586,8 @@ fn start_symbol_server() -> u16 {
                 }
                 let line = String::from_utf8_lossy(&req).lines().next().unwrap_or("").to_string();
                 let path = line.split(' ').nth(1).unwrap_or("/").split('?').next().unwrap_or("/").to_string();
-                let (code, body): (u32, Vec<u8>) = if let Some(rest) = path.strip_prefix("/ok/") {
+                let served = path.strip_prefix("/ok/").map(|r| (r, &root)).or_else(|| path.strip_prefix("/alt/").map(|r| (r, &alt_root)));
+                let (code, body): (u32, Vec<u8>) = if let Some((rest, root)) = served {
                     let rest = rest.replace("%2F", "/");
                     if rest.contains("..") {
                         (404, b"no".to_vec())
@@ -600,6 +621,7 @@ struct State {
     tool: String,
     tmp: tempfile::TempDir,
     symargs: PathBuf,
+    symroots: PathBuf,
     port: u16,
     cache: HashMap<String, LibOut>,
     inputs: HashMap<String, PathBuf>,
@@ -630,6 +652,54 @@ fn make_symargs(dir: &Path) -> PathBuf {
     root
 }
 
+/// Symbol roots that all describe test_app.pdb of testdata/test.dmp but DIFFERENTLY (every function name carries the
+/// root's suffix), so that the report tells which root the symbols were taken from.  Their names sort as
+/// alpha < empty < file.sym < mid < nonexistent < zeta.
+fn make_symroots(dir: &Path) -> PathBuf {
+    let root = dir.join("symroots");
+    let rel = "test_app.pdb/5A9832E5287241C1838ED98914E9B7FF1";
+    let src = std::fs::read_to_string(testdata().join("symbols").join(rel).join("test_app.sym")).unwrap();
+    let variant = |suffix: &str| -> String {
+        let mut out = String::with_capacity(src.len() + 4096);
+        for line in src.lines() {
+            out.push_str(line);
+            if line.starts_with("FUNC ") || line.starts_with("PUBLIC ") {
+                out.push_str(suffix);
+            }
+            out.push('\n');
+        }
+        out
+    };
+    for (name, suffix) in [("alpha", "_a"), ("mid", "_m"), ("zeta", "_z")] {
+        std::fs::create_dir_all(root.join(name).join(rel)).unwrap();
+        std::fs::write(root.join(name).join(rel).join("test_app.sym"), variant(suffix)).unwrap();
+    }
+    std::fs::create_dir_all(root.join("empty")).unwrap();
+    std::fs::write(root.join("file.sym"), variant("_f")).unwrap();
+    root
+}
+
+#[allow(clippy::too_many_arguments)]
+fn lib_get(st: &mut State, input: &str, in_path: &Path, src: &SymSrc, feat: u64, rfa: bool, evil: bool, cacheable: bool) -> LibOut {
+    let key = format!("{} {:?} {:?} {} {}", input, src.dirs, src.urls, feat, evil);
+    if cacheable {
+        if let Some(l) = st.cache.get(&key) {
+            return l.clone();
+        }
+    }
+    let l = match std::panic::catch_unwind(std::panic::AssertUnwindSafe(|| lib_run(in_path, src, feat, rfa, evil))) {
+        Ok(l) => l,
+        Err(_) => LibOut { class: "X".into(), cpu: "-".into(), renderings: vec![] },
+    };
+    if st.cache.len() > 64 {
+        st.cache.clear();
+    }
+    if cacheable {
+        st.cache.insert(key, l.clone());
+    }
+    l
+}
+
 fn sink_desc(bytes: &[u8], lib: &LibOut) -> String {
     let mut names: Vec<String> = lib.renderings.iter().filter(|(_, b)| b.as_slice() == bytes).map(|(n, _)| n.clone()).collect();
     if names.is_empty() && !bytes.is_empty() {
@@ -640,6 +710,19 @@ fn sink_desc(bytes: &[u8], lib: &LibOut) -> String {
             .map(|(n, _)| format!("{}<", n))
             .collect();
     }
+    if names.is_empty() && !bytes.is_empty() {
+        // a whole rendering followed (X>) or preceded (>X) by bytes that do not belong to it: what a sink that is not
+        // truncated / is appended to holds after the run
+        for (n, b) in lib.renderings.iter() {
+            if !b.is_empty() && b.len() < bytes.len() {
+                if &bytes[..b.len()] == b.as_slice() {
+                    names.push(format!("{}>", n));
+                } else if &bytes[bytes.len() - b.len()..] == b.as_slice() {
+                    names.push(format!(">{}", n));
+                }
+            }
+        }
+    }
     if names.is_empty() {
         names.push("none".into());
     }
@@ -649,7 +732,7 @@ fn sink_desc(bytes: &[u8], lib: &LibOut) -> String {
 fn file_desc(cls: &str, p: &Path, lib: &LibOut) -> String {
     match cls {
         "-" => "-".into(),
-        "u" | "d" | "r" => "n/a".into(),
+        "u" | "d" | "r" | "xL" => "n/a".into(),
         _ => match std::fs::read(p) {
             Ok(b) => sink_desc(&b, lib),
             Err(_) => "-".into(),
@@ -729,146 +812,366 @@ fn run(st: &mut State, line: &str) -> String {
     let cy_path = mk(cy_cls, "cyborg.json");
     let log_path = mk(log_cls, "log.txt");
     let symbols = testdata().join("symbols");
-
-    let mut args: Vec<String> = vec![];
     let s = |p: &Path| p.to_str().unwrap().to_string();
-    for m in modes.chars() {
-        match m {
-            'h' => args.push("--human".into()),
-            'j' => args.push("--json".into()),
-            'D' => args.push("--dump".into()),
-            'm' => args.push("--help-markdown".into()),
-            'c' => {
-                args.push("--cyborg".into());
-                args.push(s(&cy_path));
-            }
-            '-' => {}
-            x => panic!("mode {}", x),
-        }
-    }
-    if brief {
-        args.push("--brief".into());
-    }
-    if pretty {
-        args.push("--pretty".into());
-    }
-    match feat {
-        0 => args.push("--features=stable-basic".into()),
-        1 => {
-            args.push("--features".into());
-            args.push("stable-all".into());
-        }
-        2 => args.push("--features=unstable-all".into()),
-        _ => {}
-    }
-    if rfa {
-        args.push("--recover-function-args".into());
-    }
-    if out_cls != "-" {
-        args.push("--output-file".into());
-        args.push(s(&out_path));
-    }
-    if log_cls != "-" {
-        args.push("--log-file".into());
-        args.push(s(&log_path));
-    }
-    if verbose != "e" {
-        args.push(format!("--verbose={}", verbose));
-    }
-    if evil {
-        args.push("--evil-json".into());
-        args.push(s(&testdata().join("evil.json")));
-    }
-    if noflags & 1 != 0 {
-        args.push("--no-color".into());
-    }
-    if noflags & 2 != 0 {
-        args.push("--no-interactive".into());
-    }
-    let mut sym_dirs: Vec<PathBuf> = vec![];
+
+    // ---- symbol sources: arguments in front of / behind the minidump, and what the library is given in-process
+    let mut pre_args: Vec<String> = vec![];
+    let mut post_args: Vec<String> = vec![];
     let mut src = SymSrc { dirs: vec![], urls: vec![], cache: casedir.join("lib-cache"), tmp: casedir.join("lib-tmp") };
-    if ldi {
-        args.push("--use-local-debuginfo".into());
-    }
+    let mut variants: Vec<(String, Vec<PathBuf>)> = vec![]; // further in-process runs: (suffix, roots)
+    let mut tool_cache_tmp: Option<(PathBuf, Option<PathBuf>)> = None;
+    let mut url_of = |st: &mut State, mode: &str| -> String {
+        if st.port == 0 {
+            st.port = start_symbol_server(st.symargs.clone()); // started on first use
+        }
+        format!("http://127.0.0.1:{}/{}/", st.port, mode)
+    };
     if let Some(rest) = sym.strip_prefix('U') {
         let mode = match &rest[..1] {
             "2" => "ok",
             "4" => "nf",
             _ => "gb",
         };
-        if st.port == 0 {
-            st.port = start_symbol_server(); // started on first use
-        }
-        let url = format!("http://127.0.0.1:{}/{}/", st.port, mode);
-        args.push("--symbols-url".into());
-        args.push(url.clone());
+        let url = url_of(st, mode);
+        pre_args.push("--symbols-url".into());
+        pre_args.push(url.clone());
         src.urls.push(url);
         // unusable = a path below a regular file
         std::fs::write(casedir.join("plain-file"), b"x").unwrap();
         let bad = casedir.join("plain-file").join("sub");
-        let (tc, tt, lc, lt) = match &rest[1..] {
-            "c" => (bad.clone(), casedir.join("tool-tmp"), bad.clone(), casedir.join("lib-tmp")),
-            "t" => (casedir.join("tool-cache"), bad.clone(), casedir.join("lib-cache"), bad.clone()),
-            _ => (casedir.join("tool-cache"), casedir.join("tool-tmp"), casedir.join("lib-cache"), casedir.join("lib-tmp")),
-        };
-        for d in [&tc, &tt, &lc, &lt] {
-            let _ = std::fs::create_dir_all(d);
+        if &rest[1..] == "d" {
+            // no --symbols-cache / --symbols-tmp: the documented defaults, $TMPDIR/rust-minidump-cache and $TMPDIR
+            for d in [&src.cache, &src.tmp] {
+                let _ = std::fs::create_dir_all(d);
+            }
+            tool_cache_tmp = Some((casedir.join("rust-minidump-cache"), None));
+        } else {
+            let (tc, tt, lc, lt) = match &rest[1..] {
+                "c" => (bad.clone(), casedir.join("tool-tmp"), bad.clone(), casedir.join("lib-tmp")),
+                "t" => (casedir.join("tool-cache"), bad.clone(), casedir.join("lib-cache"), bad.clone()),
+                _ => (casedir.join("tool-cache"), casedir.join("tool-tmp"), casedir.join("lib-cache"), casedir.join("lib-tmp")),
+            };
+            for d in [&tc, &tt, &lc, &lt] {
+                let _ = std::fs::create_dir_all(d);
+            }
+            pre_args.push("--symbols-cache".into());
+            pre_args.push(s(&tc));
+            pre_args.push("--symbols-tmp".into());
+            pre_args.push(s(&tt));
+            tool_cache_tmp = Some((tc, Some(tt)));
+            src.cache = lc;
+            src.tmp = lt;
         }
-        args.push("--symbols-cache".into());
-        args.push(s(&tc));
-        args.push("--symbols-tmp".into());
-        args.push(s(&tt));
-        src.cache = lc;
-        src.tmp = lt;
+    } else if let Some(items) = sym.strip_prefix('M') {
+        let mut after = false;
+        let mut flags: Vec<PathBuf> = vec![];
+        let mut positionals: Vec<PathBuf> = vec![];
+        let mut letters: Vec<(char, PathBuf)> = vec![];
+        for ch in items.chars() {
+            if ch == '.' {
+                after = true;
+                continue;
+            }
+            if let Some(d) = ch.to_digit(10) {
+                let url = url_of(st, match d { 2 => "ok", 4 => "nf", 6 => "gb", _ => "alt" });
+                let tgt = if after { &mut post_args } else { &mut pre_args };
+                tgt.push("--symbols-url".into());
+                tgt.push(url.clone());
+                src.urls.push(url);
+                continue;
+            }
+            let low = ch.to_ascii_lowercase();
+            let root = match low {
+                'a' => st.symroots.join("alpha"),
+                'm' => st.symroots.join("mid"),
+                'z' => st.symroots.join("zeta"),
+                'f' => st.symroots.join("file.sym"),
+                'e' => st.symroots.join("empty"),
+                'x' => st.symroots.join("nonexistent"),
+                'o' => symbols.clone(),
+                'g' => st.symargs.clone(),
+                c => panic!("symbol root {}", c),
+            };
+            if ch.is_ascii_uppercase() {
+                let tgt = if after { &mut post_args } else { &mut pre_args };
+                if (flags.len() + positionals.len()) % 2 == 0 {
+                    tgt.push("--symbols-path".into());
+                    tgt.push(s(&root));
+                } else {
+                    tgt.push(format!("--symbols-path={}", s(&root)));
+                }
+                flags.push(root.clone());
+            } else {
+                assert!(after, "a positional symbol path in front of the minidump");
+                post_args.push(s(&root));
+                positionals.push(root.clone());
+            }
+            src.dirs.push(root.clone());
+            if !letters.iter().any(|(c, _)| *c == low) {
+                letters.push((low, root));
+            }
+        }
+        if !src.urls.is_empty() {
+            let (tc, tt) = (casedir.join("tool-cache"), casedir.join("tool-tmp"));
+            for d in [&tc, &tt, &src.cache, &src.tmp] {
+                let _ = std::fs::create_dir_all(d);
+            }
+            pre_args.push("--symbols-cache".into());
+            pre_args.push(s(&tc));
+            pre_args.push("--symbols-tmp".into());
+            pre_args.push(s(&tt));
+            tool_cache_tmp = Some((tc, Some(tt)));
+        } else {
+            let mut ff = flags.clone();
+            ff.extend(positionals.iter().cloned());
+            if ff != src.dirs {
+                variants.push(("flagsfirst".into(), ff));
+            }
+            for (c, root) in &letters {
+                variants.push((c.to_string(), vec![root.clone()]));
+            }
+        }
     }
     match sym {
         "s" => {
-            args.push("--symbols-path".into());
-            args.push(s(&symbols));
-            sym_dirs.push(symbols.clone());
+            pre_args.push("--symbols-path".into());
+            pre_args.push(s(&symbols));
+            src.dirs.push(symbols.clone());
         }
         "b" => {
-            args.push(format!("--symbols-path={}", s(&st.symargs)));
-            sym_dirs.push(st.symargs.clone());
+            pre_args.push(format!("--symbols-path={}", s(&st.symargs)));
+            src.dirs.push(st.symargs.clone());
         }
         _ => {}
     }
-    args.push(s(&in_path));
     match sym {
         "p" | "b" => {
-            args.push(s(&symbols));
-            sym_dirs.push(symbols.clone());
+            post_args.push(s(&symbols));
+            src.dirs.push(symbols.clone());
         }
         "a" => {
-            args.push(s(&st.symargs));
-            sym_dirs.push(st.symargs.clone());
+            post_args.push(s(&st.symargs));
+            src.dirs.push(st.symargs.clone());
         }
         _ => {}
     }
 
+    // ---- the command line, as a function of the three sink paths (the reference run for the log file uses fresh ones)
+    let build_args = |out_p: &Path, cy_p: &Path, log_p: &Path| -> Vec<String> {
+        let mut args: Vec<String> = vec![];
+        for m in modes.chars() {
+            match m {
+                'h' => args.push("--human".into()),
+                'j' => args.push("--json".into()),
+                'D' => args.push("--dump".into()),
+                'm' => args.push("--help-markdown".into()),
+                'c' => {
+                    args.push("--cyborg".into());
+                    args.push(s(cy_p));
+                }
+                '-' => {}
+                x => panic!("mode {}", x),
+            }
+        }
+        if brief {
+            args.push("--brief".into());
+        }
+        if pretty {
+            args.push("--pretty".into());
+        }
+        match feat {
+            0 => args.push("--features=stable-basic".into()),
+            1 => {
+                args.push("--features".into());
+                args.push("stable-all".into());
+            }
+            2 => args.push("--features=unstable-all".into()),
+            _ => {}
+        }
+        if rfa {
+            args.push("--recover-function-args".into());
+        }
+        if out_cls != "-" {
+            args.push("--output-file".into());
+            args.push(s(out_p));
+        }
+        if log_cls != "-" {
+            args.push("--log-file".into());
+            args.push(s(log_p));
+        }
+        if verbose != "e" {
+            args.push(format!("--verbose={}", verbose));
+        }
+        if evil {
+            args.push("--evil-json".into());
+            args.push(s(&testdata().join("evil.json")));
+        }
+        if noflags & 1 != 0 {
+            args.push("--no-color".into());
+        }
+        if noflags & 2 != 0 {
+            args.push("--no-interactive".into());
+        }
+        if ldi {
+            args.push("--use-local-debuginfo".into());
+        }
+        args.extend(pre_args.iter().cloned());
+        args.push(s(&in_path));
+        args.extend(post_args.iter().cloned());
+        args
+    };
+    let args = build_args(&out_path, &cy_path, &log_path);
+    let plain = Sinks { stdout_cls: "o", fifo: None, lim: 0, as_nobody: false };
+
+    // ---- the state of the sink paths BEFORE the run
+    let stale_fill = |n: usize| -> Vec<u8> { b"STALE-TAIL-OF-AN-OLDER-FILE-0123456789\n".iter().cycle().take(n).cloned().collect() };
+    let sinks = [(out_cls, &out_path, "out"), (cy_cls, &cy_path, "cy"), (log_cls, &log_path, "log")];
+    if sinks.iter().any(|(c, _, _)| *c == "xq") {
+        // the same command once before; what it left is then overwritten in place, byte count unchanged
+        let _ = run_tool(&st.tool, &args, &casedir, &plain);
+        for (c, p, _) in sinks.iter() {
+            if *c == "xq" {
+                if let Ok(m) = std::fs::metadata(p) {
+                    std::fs::write(p, stale_fill(m.len() as usize)).unwrap();
+                }
+            }
+        }
+    }
+    for (cls, path, which) in sinks.iter() {
+        let target = casedir.join(format!("{}.target", which));
+        match *cls {
+            "xe" => std::fs::write(path, b"").unwrap(),
+            "xs" => std::fs::write(path, stale_fill(23)).unwrap(),
+            "xl" => std::fs::write(path, stale_fill(300_000)).unwrap(),
+            "xk" => {
+                std::fs::write(&target, stale_fill(300_000)).unwrap();
+                std::os::unix::fs::symlink(&target, path).unwrap();
+            }
+            "xK" => std::os::unix::fs::symlink(&target, path).unwrap(),
+            "xL" => std::os::unix::fs::symlink(path.file_name().unwrap(), path).unwrap(),
+            c if c.starts_with('q') => {
+                for letter in c[1..].chars() {
+                    let mut a: Vec<String> = vec![];
+                    let mut with_input = true;
+                    match (*which, letter) {
+                        ("out", 'h') => a.push("--human".into()),
+                        ("out", 'b') => a.extend(["--human".to_string(), "--brief".into()]),
+                        ("out", 'j') => a.push("--json".into()),
+                        ("out", 'J') => a.extend(["--json".to_string(), "--pretty".into()]),
+                        ("out", 'D') => a.push("--dump".into()),
+                        ("out", 'd') => a.extend(["--dump".to_string(), "--brief".into()]),
+                        ("cy", 'c') => a.extend(["--cyborg".to_string(), s(path)]),
+                        ("cy", 'C') => a.extend(["--cyborg".to_string(), s(path), "--pretty".into()]),
+                        ("log", 'T') => a.extend(["--verbose=trace".to_string(), "--log-file".into(), s(path)]),
+                        ("log", 'E') => {
+                            a.extend(["--log-file".to_string(), s(path), s(&casedir.join("no-such.dmp"))]);
+                            with_input = false;
+                        }
+                        (w, l) => panic!("previous run {} on {}", l, w),
+                    }
+                    if *which == "out" {
+                        a.push("--output-file".into());
+                        a.push(s(path));
+                    }
+                    if with_input {
+                        // the same symbol sources (not the URLs: their cache directories are per run)
+                        a.extend(pre_args.iter().filter(|_| src.urls.is_empty()).cloned());
+                        a.push(s(&in_path));
+                        a.extend(post_args.iter().cloned());
+                    }
+                    let _ = run_tool(&st.tool, &a, &casedir, &plain);
+                }
+            }
+            _ => {}
+        }
+    }
+    let pre_len = |p: &Path, cls: &str| -> String {
+        if cls == "-" || cls.starts_with('f') {
+            return "-".into();
+        }
+        std::fs::metadata(p).map(|m| if m.is_file() { m.len().to_string() } else { "-".to_string() }).unwrap_or("-".into())
+    };
+    let pre_desc = format!("{}/{}/{}", pre_len(&out_path, out_cls), pre_len(&cy_path, cy_cls), pre_len(&log_path, log_cls));
+    let has_pre = |cls: &str| (cls.starts_with('x') && cls != "xL") || cls.starts_with('q');
+    let before: Vec<Option<Vec<u8>>> = sinks.iter().map(|(c, p, _)| if has_pre(c) { std::fs::read(p).ok() } else { None }).collect();
+
     // (a) the tool first: if it dies the same input is not fed to the library in this process
-    src.dirs = sym_dirs.clone();
     let tool = run_tool(&st.tool, &args, &casedir, &Sinks { stdout_cls, fifo: fifo.clone(), lim, as_nobody });
     let died = tool.exit.starts_with("sig") || tool.exit == "timeout";
 
-    // (b) the library, in-process
-    let key = format!("{} {} {} {}", input, sym, feat, evil);
-    let cacheable = !sym.starts_with('U');
-    let lib = if died {
-        LibOut { class: "?".into(), cpu: "-".into(), renderings: vec![] }
-    } else if let Some(l) = st.cache.get(&key).filter(|_| cacheable) {
-        l.clone()
-    } else {
-        let p = in_path.clone();
-        let l = match std::panic::catch_unwind(std::panic::AssertUnwindSafe(|| lib_run(&p, &src, feat, rfa, evil))) {
-            Ok(l) => l,
-            Err(_) => LibOut { class: "X".into(), cpu: "-".into(), renderings: vec![] },
+    // the log file against the log of the same command on fresh paths
+    let mut logref = "-".to_string();
+    if (log_cls.starts_with('x') || log_cls.starts_with('q')) && log_cls != "xL" && !died {
+        let fresh = |cls: &str, p: &PathBuf, name: &str| -> PathBuf {
+            if cls == "g" || cls.starts_with('x') || cls.starts_with('q') { casedir.join(name) } else { p.clone() }
         };
-        if st.cache.len() > 64 {
-            st.cache.clear();
+        let ref_log = casedir.join("log.ref.txt");
+        let ref_args = build_args(&fresh(out_cls, &out_path, "out.ref.txt"), &fresh(cy_cls, &cy_path, "cyborg.ref.json"), &ref_log);
+        let _ = run_tool(&st.tool, &ref_args, &casedir, &Sinks { stdout_cls, fifo: None, lim, as_nobody });
+        let name_free = |b: Vec<u8>| -> Vec<u8> { String::from_utf8_lossy(&b).replace(".ref.", ".").into_bytes() };
+        let got = std::fs::read(&log_path).ok().map(name_free);
+        let want = std::fs::read(&ref_log).ok().map(name_free);
+        logref = if got == want { "same".into() } else { "diff".into() };
+    }
+    // pre-state bytes that survived the run; sinks that are byte for byte what they were before the run
+    let mut stale: Vec<&str> = vec![];
+    let mut kept: Vec<&str> = vec![];
+    for (i, (cls, path, which)) in sinks.iter().enumerate() {
+        if has_pre(cls) {
+            if let Ok(b) = std::fs::read(path) {
+                if before[i].as_ref() == Some(&b) {
+                    kept.push(which);
+                } else if b.windows(11).any(|w| w == b"STALE-TAIL-") {
+                    stale.push(which);
+                }
+            }
         }
-        st.cache.insert(key, l.clone());
-        l
+    }
+
+    // (b) the library, in-process
+    let cacheable = src.urls.is_empty();
+    let mut lib = if died {
+        LibOut { class: "?".into(), cpu: "-".into(), renderings: vec![] }
+    } else {
+        lib_get(st, input, &in_path, &src, feat, rfa, evil, cacheable)
+    };
+    if lib.class == "O" {
+        for (suffix, roots) in variants.iter() {
+            let v = SymSrc { dirs: roots.clone(), urls: vec![], cache: src.cache.clone(), tmp: src.tmp.clone() };
+            let l2 = lib_get(st, input, &in_path, &v, feat, rfa, evil, true);
+            for (n, b) in l2.renderings {
+                if n != "D" && n != "DB" {
+                    lib.renderings.push((format!("{}@{}", n, suffix), b));
+                }
+            }
+        }
+    }
+    let count_files = |p: &Path| -> usize {
+        fn walk(p: &Path, n: &mut usize) {
+            if let Ok(rd) = std::fs::read_dir(p) {
+                for e in rd.flatten() {
+                    let q = e.path();
+                    if q.is_dir() {
+                        walk(&q, n);
+                    } else {
+                        *n += 1;
+                    }
+                }
+            }
+        }
+        let mut n = 0;
+        walk(p, &mut n);
+        n
+    };
+    let symc = match &tool_cache_tmp {
+        Some((tc, tt)) if !died => format!(
+            "{}/{}/{}/{}",
+            count_files(tc),
+            tt.as_ref().map(|t| count_files(t).to_string()).unwrap_or("x".into()),
+            count_files(&src.cache.join("0")),
+            count_files(&src.tmp)
+        ),
+        _ => "-".to_string(),
     };
 
     let stdout_desc = match &tool.stdout {
@@ -882,13 +1185,13 @@ fn run(st: &mut State, line: &str) -> String {
     let cy_desc = if modes.contains('c') { file_desc(cy_cls, &cy_path, &lib) } else { "-".into() };
     let log_desc = match log_cls {
         "-" => "-".to_string(),
-        "u" | "d" | "r" => "n/a".into(),
+        "u" | "d" | "r" | "xL" => "n/a".into(),
         _ => std::fs::metadata(&log_path).map(|m| m.len().to_string()).unwrap_or("-".into()),
     };
     let exp: Vec<String> = lib.renderings.iter().map(|(n, b)| format!("{}:{}:{}", n, b.len(), fnv(b))).collect();
     let _ = std::fs::remove_dir_all(&casedir);
     format!(
-        "lib={} cpu={} exit={} stdout={} out={} cy={} log={} stderr={} exp={}",
+        "lib={} cpu={} exit={} stdout={} out={} cy={} log={} stderr={} pre={} kept={} logref={} stale={} symc={} exp={}",
         lib.class,
         if lib.cpu.is_empty() { "-" } else { lib.cpu.as_str() },
         tool.exit,
@@ -897,6 +1200,11 @@ fn run(st: &mut State, line: &str) -> String {
         cy_desc,
         log_desc,
         tool.stderr.len(),
+        pre_desc,
+        if kept.is_empty() { "-".to_string() } else { kept.join("+") },
+        logref,
+        if stale.is_empty() { "-".to_string() } else { stale.join("+") },
+        symc,
         if exp.is_empty() { "-".to_string() } else { exp.join(",") }
     )
 }
@@ -911,7 +1219,8 @@ fn main() {
         let _ = std::fs::set_permissions(tmp.path(), std::fs::Permissions::from_mode(0o755));
     }
     let symargs = make_symargs(tmp.path());
+    let symroots = make_symroots(tmp.path());
     let port = 0;
-    let mut st = State { tool, tmp, symargs, port, cache: HashMap::new(), inputs: HashMap::new(), n: 0 };
+    let mut st = State { tool, tmp, symargs, symroots, port, cache: HashMap::new(), inputs: HashMap::new(), n: 0 };
     for_each_case(|line| run(&mut st, line));
 }
